@@ -17,6 +17,7 @@ EXPLANATION = (
     "visit, calls detect_deadlock whenever the flag is set, takes time_of_deadlock from the clock of the deadlocking event before the clock advances, and "
     "times_to_deadlock is time_of_deadlock minus the first-visit time. Soundness/completeness of the knot search and of the incremental edge maintenance is "
     "a graph-algorithmic argument outside static shape analysis and is not decided.")
+EXPLANATION += (" Added later: " 'a one-vertex component is a knot iff set(successors(v)) == {v} (no degree or in-edge test).')
 RULE = "instances = hook call sites x paths x Node-family views, and the iteration paths of simulate_until_deadlock"
 DD = "self.simulation.deadlock_detector"
 
